@@ -335,6 +335,10 @@ struct Gen<'a> {
     poison: bool,
     eol: u8, // 0 = \n, 1 = \r\n, 2 = mixed incl. \r\r\n
     tabs: bool,
+    /// (address, size) of the previous record of each range-table kind (0 FUNC, 1 line, 2 STACK WIN,
+    /// 3 STACK CFI INIT): a quarter of the records are placed relative to their predecessor in the
+    /// same table (identical, nested, overlapping in exactly one byte, adjacent, one byte apart)
+    near: [Option<(u64, u64)>; 4],
 }
 
 impl Gen<'_> {
@@ -365,6 +369,37 @@ impl Gen<'_> {
             6 => format!("{:x}", u64::MAX - self.r.below(64)),
             _ => format!("{:x}", self.r.below(1 << 16)),
         }
+    }
+    /// address and size fields of a record that goes into range table `kind`
+    fn addr_size(&mut self, kind: usize) -> (String, String) {
+        if let Some((a, sz)) = self.near[kind] {
+            if self.r.chance(1, 4) {
+                let end = a.wrapping_add(sz); // first byte after the predecessor
+                let na = match self.r.below(7) {
+                    0 => a,
+                    1 => a.wrapping_add(1),
+                    2 | 3 => end.wrapping_sub(1), // shares exactly the predecessor's last byte
+                    4 => end,                     // adjacent
+                    5 => end.wrapping_add(1),
+                    _ => a.wrapping_sub(self.r.below(3)),
+                };
+                let ns = match self.r.below(5) {
+                    0 => sz,
+                    1 => 1,
+                    2 => a.wrapping_sub(na).wrapping_add(1) & 0xffff, // ends on the predecessor's first byte
+                    _ => 1 + self.r.below(0x20),
+                };
+                self.near[kind] = Some((na, ns));
+                return (format!("{na:x}"), format!("{ns:x}"));
+            }
+        }
+        let (a, s) = (self.hex64(), self.hex32());
+        if a.len() <= 16 {
+            if let (Ok(av), Ok(sv)) = (u64::from_str_radix(&a, 16), u64::from_str_radix(&s, 16)) {
+                self.near[kind] = Some((av, sv));
+            }
+        }
+        (a, s)
     }
     fn hex32(&mut self) -> String {
         match self.r.below(16) {
@@ -449,7 +484,7 @@ impl Gen<'_> {
                 }
             }
             9..=13 => {
-                let (a, s, p) = (self.hex64(), self.hex32(), self.hex32());
+                let ((a, s), p) = (self.addr_size(0), self.hex32());
                 if self.r.chance(1, 5) {
                     self.named(out, &["FUNC", "m", &a, &s, &p], pad)
                 } else {
@@ -488,7 +523,7 @@ impl Gen<'_> {
                             out.extend_from_slice(e.as_bytes()); // blank line ends the FUNC
                         }
                         _ => {
-                            let (a, s, l, f) = (self.hex64(), self.hex32(), self.dec32(), self.dec32());
+                            let ((a, s), l, f) = (self.addr_size(1), self.dec32(), self.dec32());
                             self.line(out, &[&a, &s, &l, &f]);
                             let e = self.eol();
                             out.extend_from_slice(e.as_bytes());
@@ -503,8 +538,9 @@ impl Gen<'_> {
                     "0" => *self.r.pick(&["0", "0", "0", "1"]),
                     _ => *self.r.pick(&["0", "1", "7"]),
                 };
-                let a = self.hex64();
-                let f: Vec<String> = (0..7).map(|_| self.hex32()).collect();
+                let (a, sz) = self.addr_size(2);
+                let mut f: Vec<String> = vec![sz];
+                f.extend((0..6).map(|_| self.hex32()));
                 let mut parts = vec!["STACK WIN", ty, &a];
                 parts.extend(f.iter().map(|s| s.as_str()));
                 parts.push(hp);
@@ -525,7 +561,7 @@ impl Gen<'_> {
                 out.extend_from_slice(e.as_bytes());
             }
             17..=19 => {
-                let (a, s) = (self.hex64(), self.hex32());
+                let (a, s) = self.addr_size(3);
                 self.line(out, &["STACK CFI INIT", &a, &s, ".cfa: $esp 4 + .ra: .cfa 4 - ^"]);
                 for _ in 0..pad {
                     out.push(b'y');
@@ -588,7 +624,7 @@ fn gen_file(r: &mut Rng, o: &FileOpts) -> Vec<u8> {
         _ => 0,
     };
     let tabs = r.chance(1, 8);
-    let mut g = Gen { r, poison: o.poison, eol, tabs };
+    let mut g = Gen { r, poison: o.poison, eol, tabs, near: [None; 4] };
     let mut out = Vec::new();
     if !g.r.chance(1, 12) {
         let id = if g.r.chance(1, 6) { "0" } else { "D3096ED481217FD4C16B29CD9BC208BA0" };
